@@ -445,9 +445,22 @@ func (o *oracleRun) run(nBlocks int) {
 				case x < 87:
 					pc.class = "timestamp-just-inside"
 					msg.Prices[0].Prices[0].Timestamp = o.ts(5 * time.Second)
-				case x < 89:
+				case x < 88:
 					pc.class = "bad-source"
 					msg.Prices[0].SourceID = 2
+				case x < 89:
+					// the rule's source plus one more entry: the reserved source 0 without a source round, or the same
+					// source once more with another value
+					pc.class = "extra-source"
+					extra := &oracletypes.PriceSource{SourceID: uint64(o.r.Intn(2)), Prices: []*oracletypes.PriceTimeDetID{{Price: new(big.Int).Add(mustBig(price), big.NewInt(int64(100+o.r.Intn(900)))).String(), Decimal: f.dec, Timestamp: o.ts(0)}}}
+					if extra.SourceID == 1 {
+						extra.Prices[0].DetID = fmt.Sprint(3000 + based)
+					}
+					if o.r.Intn(2) == 0 {
+						msg.Prices = append(msg.Prices, extra)
+					} else {
+						msg.Prices = append([]*oracletypes.PriceSource{extra}, msg.Prices...)
+					}
 				case x < 91:
 					pc.class = "oversized"
 					pc.opts.Memo = strings.Repeat("x", 1000)
@@ -996,6 +1009,9 @@ func (o *oracleRun) judgeTx(mode string, pc priceCase, st *ops.Step, pre, post *
 			bad("counted-wrong-base-block", "base block %d, round is based on %d", m.BasedBlock, rd.based)
 		}
 		newDet := false
+		if len(m.Prices) != 1 {
+			bad("counted-source-list-differs-from-rule", "%d price sources, the feeder's rule lists exactly one", len(m.Prices))
+		}
 		for _, ps := range m.Prices {
 			if ps.SourceID != 1 {
 				bad("counted-wrong-source", "source %d", ps.SourceID)
